@@ -15,7 +15,7 @@ if os.path.exists(notes):
 meta = {"breaks_property": breaks, "origin": "independent sub-agent given only the property text and a scratch worktree",
         "needs_to_manifest": needs,
         "confirmed": {"test_suite_with_change": "ctest: 100% passed (2/2 binaries)", "demo_on_changed_tree": "exit != 0", "demo_on_pristine_tree": "exit 0",
-                      "how": "tools/seed_confirm.sh %s in the scratch worktree; tools/seed_run.sh patch.diff <ids> against /repo (applied, checked, reverted)" % ID},
+                      "how": "tools/seed_confirm.sh %s in the scratch worktree; tools/seed_run.sh patch.diff <ids> (patch applied to a scratch worktree, checks run with VERIF_REPO)" % ID},
         "caught_by": json.loads(caught)}
 json.dump(meta, open(os.path.join(d, "meta.json"), "w"), indent=1)
 print("saved", d, os.listdir(d))
